@@ -211,6 +211,8 @@ func Run(stimPath, out string) {
 		if os.Getenv("VERIF_DEBUG") != "" {
 			println("retx", time.Since(t0).String())
 		}
+		wr.Put(dupcache(0, 70))
+		wr.Put(dupcache(64, 70))
 		wr.Put(tcpbw(rec.Seed()*100+int64(k), 0, rounds))
 		wr.Put(tcpbw(rec.Seed()*100+int64(k), 64, rounds))
 		wr.Put(stress(rec.Seed()*100+int64(k), 0, rounds))
